@@ -71,7 +71,12 @@ func (l *Lexer) scanToken() error {
 	case ',':
 		l.addToken(TokenComma)
 	case '.':
-		l.addToken(TokenDot)
+		// ".5", ".3e1f": a decimal float literal may start with the dot.
+		if isDigit(l.peek()) {
+			l.fraction()
+		} else {
+			l.addToken(TokenDot)
+		}
 	case ':':
 		l.addToken(TokenColon)
 	case ';':
@@ -255,30 +260,12 @@ func (l *Lexer) number() {
 	// WGSL allows "1." as a float literal (no trailing digit required).
 	// We treat "N." as float when followed by a digit or not an identifier-start char.
 	// "1.x" is member access (int 1, then .x), but "1." "1.0" "1.5" are floats.
+	// "1.e3" and "3.f" are floats as well: the dot may be followed directly by
+	// an exponent or by a type suffix that ends the token.
 	nextAfterDot := l.peekNext()
-	if l.peek() == '.' && !isAlpha(nextAfterDot) && nextAfterDot != '_' {
+	if l.peek() == '.' && ((!isAlpha(nextAfterDot) && nextAfterDot != '_') || l.dotStartsFloatTail()) {
 		l.advance() // consume '.'
-		for isDigit(l.peek()) {
-			l.advance()
-		}
-		// Look for exponent
-		if l.peek() == 'e' || l.peek() == 'E' {
-			l.advance()
-			if l.peek() == '+' || l.peek() == '-' {
-				l.advance()
-			}
-			for isDigit(l.peek()) {
-				l.advance()
-			}
-		}
-		// Float suffix: f, h (32/16-bit), lf (64-bit)
-		if l.peek() == 'l' && l.peekNext() == 'f' {
-			l.advance() // consume 'l'
-			l.advance() // consume 'f'
-		} else if l.peek() == 'f' || l.peek() == 'h' {
-			l.advance()
-		}
-		l.addToken(TokenFloatLiteral)
+		l.fraction()
 		return
 	}
 
@@ -324,6 +311,60 @@ func (l *Lexer) number() {
 	}
 
 	l.addToken(TokenIntLiteral)
+}
+
+// fraction scans what follows the dot of a decimal float literal: digits,
+// an optional exponent and an optional type suffix.
+func (l *Lexer) fraction() {
+	for isDigit(l.peek()) {
+		l.advance()
+	}
+	// Look for exponent
+	if l.peek() == 'e' || l.peek() == 'E' {
+		l.advance()
+		if l.peek() == '+' || l.peek() == '-' {
+			l.advance()
+		}
+		for isDigit(l.peek()) {
+			l.advance()
+		}
+	}
+	// Float suffix: f, h (32/16-bit), lf (64-bit)
+	if l.peek() == 'l' && l.peekNext() == 'f' {
+		l.advance() // consume 'l'
+		l.advance() // consume 'f'
+	} else if l.peek() == 'f' || l.peek() == 'h' {
+		l.advance()
+	}
+	l.addToken(TokenFloatLiteral)
+}
+
+// dotStartsFloatTail reports, with the lexer positioned on the dot of "N.",
+// whether the dot is followed by an exponent with at least one digit ("1.e3",
+// "1.E-3") or by a type suffix that ends the token ("3.f", "3.h").
+func (l *Lexer) dotStartsFloatTail() bool {
+	a1, a2, a3 := l.peekAt(1), l.peekAt(2), l.peekAt(3)
+	if a1 == 'e' || a1 == 'E' {
+		return isDigit(a2) || ((a2 == '+' || a2 == '-') && isDigit(a3))
+	}
+	if a1 == 'f' || a1 == 'h' {
+		return !isAlphaNumeric(a2) && a2 != '_'
+	}
+	return false
+}
+
+// peekAt returns the rune n positions after the current one (0 past the end).
+func (l *Lexer) peekAt(n int) rune {
+	pos := l.pos
+	for ; n > 0 && pos < len(l.source); n-- {
+		_, size := utf8.DecodeRuneInString(l.source[pos:])
+		pos += size
+	}
+	if pos >= len(l.source) {
+		return 0
+	}
+	r, _ := utf8.DecodeRuneInString(l.source[pos:])
+	return r
 }
 
 func (l *Lexer) identifier() {
